@@ -627,6 +627,15 @@ func (g *Gen) havocAllHeaps(st State) {
 }
 
 func (g *Gen) execReturn(v *ssa.Return, st State, reach string) {
+	if g.inl != nil {
+		// a return of a helper executed in place: record where it ends, the caller merges
+		var vs []T
+		for _, r := range v.Results {
+			vs = append(vs, g.val(r))
+		}
+		g.inl.rets = append(g.inl.rets, inlRet{reach: reach, st: copyState(st), vals: vs})
+		return
+	}
 	if g.ct == nil || g.dry {
 		return
 	}
